@@ -2,7 +2,7 @@
 (* spec -> Tink: the TLA+ reference ENCRYPTS.  Reads seal requests (key            *)
 (* configuration, chosen nonce, plaintext, associated data) and writes the          *)
 (* ciphertexts the documented format prescribes; the driver then feeds them to the   *)
-(* real Decrypt.  Request: [mode, keys, dek, ep, nonce, pt, ad, (envelope:) dekBytes, kekNonce]. *)
+(* real Decrypt.  Request: [mode, keys, rkind, padTo, dek, ep, nonce, pt, ad, (envelope:) dekBytes, kekNonce]. *)
 EXTENDS Envelope, Json, IOUtils, TLC
 
 Reqs == ndJsonDeserialize(IOEnv.VERIF_REQ)
@@ -13,7 +13,7 @@ Cfgs(js) == [i \in 1..Len(js) |-> Cfg(js[i])]
 
 SealReq(q) ==
   IF q.mode = "envelope"
-  THEN EnvelopeKeySeal(HexToBytes(q.ep), Cfgs(q.keys), HexToBytes(q.kekNonce), q.dek, HexToBytes(q.dekBytes), HexToBytes(q.nonce),
+  THEN EnvelopeKeySeal(HexToBytes(q.ep), [keys |-> Cfgs(q.keys), kind |-> q.rkind, padTo |-> q.padTo], HexToBytes(q.kekNonce), q.dek, HexToBytes(q.dekBytes), HexToBytes(q.nonce),
                     HexToBytes(q.pt), HexToBytes(q.ad))
   ELSE KeysetSeal(Cfgs(q.keys), 1, HexToBytes(q.nonce), HexToBytes(q.pt), HexToBytes(q.ad))
 
